@@ -106,10 +106,8 @@ theorem failWith_not_ok {α : Type} (fds : List Fd) (e : Nat) {h h' : Hist} {a :
   | nil => unfold Sys.failWith.go at hr; obtain ⟨_, he⟩ := ret_inv hr; cases he
   | cons fd rest ih =>
     unfold Sys.failWith.go at hr
-    obtain ⟨hm, ok, _, h2⟩ := bind_inv hr
-    cases ok with
-    | true => exact ih h2
-    | false => obtain ⟨_, he⟩ := ret_inv h2; cases he
+    obtain ⟨hm, _, _, h2⟩ := bind_inv hr
+    exact ih h2
 
 theorem openat_ok_inv {d : Fd} {n : Bytes} {fl m : Nat} {h h' : Hist} {fd : Fd}
     (hr : Runs (Sys.openat d n fl m) h h' (.ok fd)) :
